@@ -135,7 +135,7 @@ static int apply(sess *S, int ev, int judge, vres *r, uint64_t *dofact_ref)
     {
         double ratio = 0; int quirk = 0; vres r2; memset(&r2, 0, sizeof r2);
         if (o_solution(s, trans, &B_after, &r2, &ratio, &quirk)) {
-            if (!quirk && c->refine && kind != 3 && !strcmp(r2.sig, "residual")) {
+            if (!quirk && c->refine && !strcmp(r2.sig, "residual")) {
                 double bmax = xs_real(s, s->berr, 0);
                 if (bmax > 4.0 * n * T->eps) return wk_fail(r, "refinement-degraded", "after refinement (reported berr %g): %s", bmax, r2.msg);
             }
